@@ -51,11 +51,18 @@ def run(tier, seed):
     cov["obligations"] += k5["paths_or_conditions"]
     cov["discharged"] += k5["confirmed"]
     cov["inconclusive"] += k5["inconclusive"]
+    from ..ty import constness
+
+    cv, cn = constness.run()
+    violations += cv
+    cov["constness_evaluations"] = cn
+    cov["evaluations"] += cn
     level = "proof" if cov["obligations"] == cov["discharged"] else "other"
     return cli.emit(
         PID, tier, seed, "other", cov, violations, time.time() - t0,
         [
             "the type universe is finite and fixed (coverage.type_universe); parameterised families beyond the listed instances are covered only by the CrossHair kernel K6 within its bounds",
+            "const-ness of typed constants (lit(v, T), lit(v).cast(T)) and their acceptance in const-declared parameters is code outside the signature matcher: evaluated on the real ColFn(...).dtype() over operator x const position x constant form (pv/ty/constness.py), not solver-decided",
             "z3 decides each obligation for all argument tuples over tables obtained by calling the real converts_to / conversion_cost / implicit_conversions; the trie matching rule is a reference model validated exhaustively on all unary and binary tuples against the real code",
         ] + k5["assumptions"],
         faults,
